@@ -2,9 +2,9 @@
    Only statements, closed by [exact lemma], with Print Assumptions beneath. *)
 From Coq Require Import String List NArith ZArith Bool Permutation.
 From J5V.lib Require Import Outcome.
-From J5V.model Require Import ReflectDesc ReflectSchema Reflect ExportForm Export ExportApi.
+From J5V.model Require Import ReflectDesc ReflectSchema Reflect ReflectOwn ExportForm Export ExportFields ExportApi.
 From J5V.gen Require ReflectGen.
-From J5V.proofs Require Import ReflectProofs ExportProofs ReflectInvProofs ExportApiProofs.
+From J5V.proofs Require Import ReflectProofs ExportProofs ReflectInvProofs ReflectWeakProofs ExportApiProofs.
 Import ListNotations.
 
 Definition entries_of (st : sset) : list (ref * root) :=
@@ -46,6 +46,18 @@ Theorem C15_export_is_erasure : forall r, export_root r = form_of_root r.
 Proof. exact export_root_form. Qed.
 Print Assumptions C15_export_is_erasure.
 
+(* "no rule, enum option info, entity marker, any-membership or list rule is lost", against the code's own
+   list: every field of every message of j5/schema/v1/schema.proto (the structs of schema.pb.go, regenerated
+   from /repo on every run) is either built member by member by the export AND read by the import, or
+   carried as one value (rules / list rules / ext / entity payloads, whole scalar fields), or never produced
+   (inline alternatives), or deliberately dropped by name (ObjectField.entity; MapField.key_schema by the
+   import): a field added to schema.proto, an export line or an import read that disappears breaks this *)
+Theorem C15_every_field_of_schema_proto_is_accounted_for :
+  classes_cover = true /\ export_covers = true /\ import_covers = true /\ dropped_exact = true /\
+  export_builds_only_built = true.
+Proof. exact export_import_cover_schema_proto. Qed.
+Print Assumptions C15_every_field_of_schema_proto_is_accounted_for.
+
 (* where nothing is lost the import gives back the very same object: enums *)
 Theorem C15_enum_exact : forall n d p o i,
   import_root (export_root (REnum n d p o i)) = ROk (REnum n d p o i).
@@ -73,20 +85,20 @@ Theorem C15_roundtrip_partial : forall S : list (ref * root),
 Proof. exact export_import_roundtrip. Qed.
 Print Assumptions C15_roundtrip_partial.
 
-(* ---- the conclusion of the full statement under the hypothesis wf_keys: enums non-empty (protodesc
-   guarantees it) and the "_"-joined names of messages / enums / real oneofs pairwise distinct (a linked
-   set does NOT guarantee it: the known name-collision finding). Nothing is assumed about property or
-   JSON names. Every successful reflection then exports, re-imports and re-exports to exactly the same
-   form, every reference resolved. This is the statement over the flat list of exported schemas
-   ([export_set]); C15_api_roundtrip below is the same through the package structure of the API. *)
+(* ---- the conclusion of the full statement over the flat list of exported schemas ([export_set]), for
+   EVERY descriptor set: no hypothesis (the former hypothesis wf_keys, distinct split names, is gone: what
+   the round trip needs of a reflected set, distinct keys, no placeholder, importable scalar formats,
+   closed references, is proved of every successful reflection in ReflectWeakProofs.v). Every
+   successful reflection exports, re-imports and re-exports to exactly the same form, every reference
+   resolved. C15_full below is the same through the package structure of the API. *)
 Theorem C15_reflected_roundtrip : forall D fs S,
-  wf_keys D -> reflect D fs = Ok S ->
+  reflect D fs = Ok S ->
   exists X, export_set S = Ok X /\
   exists S', import_api X = ROk S' /\
     (forall k x, In (k, x) X -> exists r', lookup S' k = Some (Linked r') /\ export_root r' = x) /\
     (forall k, ~ In k (map fst X) -> lookup S' k = None) /\
     refs_resolved S' = true.
-Proof. exact reflect_export_import_roundtrip. Qed.
+Proof. exact reflect_export_import_roundtrip_any. Qed.
 Print Assumptions C15_reflected_roundtrip.
 
 (* ---- the package bookkeeping of APIFromImage (getSchemaSet / getPackage / getSubPackage /
@@ -104,9 +116,14 @@ Theorem C15_routing_keeps_every_entry : forall W X api,
 Proof. exact route_all_entries. Qed.
 Print Assumptions C15_routing_keeps_every_entry.
 
-(* ---- the full statement under the hypothesis wf_keys *)
+(* ---- THE FULL STATEMENT, proved: no hypothesis on the descriptor set, the services, the listed
+   packages or the order in which the files are visited *)
+Theorem C15_full : C15_full_statement.
+Proof. exact api_roundtrip. Qed.
+Print Assumptions C15_full.
+
 Theorem C15_api_roundtrip : forall D svcs W fs api,
-  wf_keys D -> api_from_image D svcs W fs = Ok api ->
+  api_from_image D svcs W fs = Ok api ->
   exists S', import_packages api = ROk S' /\
     (forall k x, In (k, x) (api_entries api) -> exists r', lookup S' k = Some (Linked r') /\ export_root r' = x) /\
     (forall k, ~ In k (map fst (api_entries api)) -> lookup S' k = None) /\
@@ -116,9 +133,9 @@ Print Assumptions C15_api_roundtrip.
 
 (* and APIFromImage does succeed when addStructure accepts the services and topics of the image, the
    reflection succeeds and every package name splits *)
-Theorem C15_api_from_image_ok : forall D svcs W fs S apiS,
-  wf_keys D -> add_structure W (api_init W) svcs = ROk apiS ->
-  reflect D fs = Ok S -> packages_split S -> exists api, api_from_image D svcs W fs = Ok api.
+Theorem C15_api_from_image_ok : forall D svcs W fs S ow apiS,
+  add_structure W (api_init W) svcs = ROk apiS ->
+  o_reflect D fs = Ok (S, ow) -> packages_split S -> exists api, api_from_image D svcs W fs = Ok api.
 Proof. exact api_from_image_ok. Qed.
 Print Assumptions C15_api_from_image_ok.
 
